@@ -71,6 +71,10 @@ def concretise(sc, rng):
         A = Rotation.random(n, random_state=int(rng.integers(1 << 31))).as_matrix()
     elif ori == "single":
         A = np.repeat(Rotation.random(1, random_state=int(rng.integers(1 << 31))).as_matrix(), n, axis=0)
+    elif ori == "mixed":
+        A = Rotation.random(n, random_state=int(rng.integers(1 << 31))).as_matrix()
+        octa = np.round(Rotation.create_group("O").as_matrix())
+        A[1::2] = octa[rng.integers(0, 24, len(A[1::2]))]
     elif ori == "aligned" or ori == "dead":
         octa = Rotation.create_group("O").as_matrix()
         A = octa[rng.integers(0, 24, n)]
@@ -145,7 +149,7 @@ def main(tier):
         idx = rng.choice(len(scens), 900, replace=False)
         pick = [scens[i] for i in idx]
     for sc in pick:
-        if sc["n"] >= 100000 and sc["ori"] not in ("generic", "aligned", "near1e-12"):
+        if sc["n"] >= 10000 and sc["ori"] not in ("generic", "mixed", "near1e-12"):
             continue
         for rep in range(per if sc["n"] < 1000 else 1):
             phase, fabric = kernel.FAB[sc["fab"]]
